@@ -276,10 +276,11 @@ double GammaQ(double x, double a)
 		return 1.0;
 	else if(a > aMax)
 		return GammaQint(x, a);
+	// P and Q are probabilities. Rounding errors (e.g. of GammaLn(a) for tiny a, where P = 1 - O(a)) must not push them out of [0,1].
 	else if(x < a + 1.0)
-		return 1.0 - GammaPser(x, a);
+		return std::max(0.0, 1.0 - GammaPser(x, a));
 	else
-		return GammaQcf(x, a);
+		return std::min(1.0, GammaQcf(x, a));
 }
 
 double GammaP(double x, double a)
